@@ -20,7 +20,7 @@
 //
 // Mutation kinds (see genBase): bitflip, bitflip2, truncate, extend,
 // boundary-shift, swap, swap-own, strip, replace-signature, replace-address,
-// addr-subst, addr-delete, addr-insert, addr-keylen, reseal.
+// addr-subst, addr-delete, addr-insert, addr-decoded, addr-keylen, reseal.
 //
 // usage: vcheck C04 [-procs N] [-base name]      (master)
 //
@@ -691,6 +691,45 @@ func genBase(g *gen, b *base, partners []*base) {
 				})
 			}
 		}
+		// mutations in the DECODED domain (version | key | checksum), re-encoded: bytes appended after the checksum, a
+		// zero byte in front, each checksum byte altered, the version byte altered with and without a fresh checksum
+		if raw, err := serializer.Base58Decode(a); err == nil && len(raw) == 37 {
+			enc := func(b []byte) []byte { return serializer.Base58Encode(b) }
+			dec := []struct {
+				what string
+				b    []byte
+			}{
+				{"one zero byte appended after the checksum", append(cp(raw), 0x00)},
+				{"one byte 0x7f appended after the checksum", append(cp(raw), 0x7f)},
+				{"four bytes appended after the checksum", append(cp(raw), 1, 2, 3, 4)},
+				{"a copy of the checksum appended", append(cp(raw), raw[33:]...)},
+				{"a zero byte put in front", append([]byte{0x00}, raw...)},
+				{"the last checksum byte dropped", cp(raw[:36])},
+			}
+			for k := 33; k < 37; k++ {
+				c := cp(raw)
+				c[k] ^= 0x01
+				dec = append(dec, struct {
+					what string
+					b    []byte
+				}{fmt.Sprintf("decoded checksum byte %d altered", k-33), c})
+			}
+			vb := cp(raw)
+			vb[0] = 0x01
+			dec = append(dec, struct {
+				what string
+				b    []byte
+			}{"version byte set to 1, checksum kept", vb})
+			vb2 := append([]byte{0x01}, raw[1:33]...)
+			dec = append(dec, struct {
+				what string
+				b    []byte
+			}{"version byte set to 1, checksum recomputed", append(cp(vb2), doubleSHA(vb2)...)})
+			for _, d := range dec {
+				d := d
+				g.emit("addr-decoded", fn, str(d.what+" (decoded address re-encoded)"), with(f, enc(d.b)))
+			}
+		}
 		// address with a valid checksum over a key of the wrong length
 		for _, kl := range []int{0, 1, 31, 33, 64} {
 			kl := kl
@@ -874,7 +913,7 @@ func refusalReason(v *accountant.Vertex) (reason string) {
 var (
 	addrFields = []string{"SignerPublicAddress", "Transaction.IssuerAddress", "Transaction.ReceiverAddress"}
 	// kinds that corrupt an address string (as opposed to replacing it by another well-formed one)
-	corrupting = map[string]bool{"bitflip": true, "truncate": true, "extend": true, "boundary-shift": true, "addr-subst": true, "addr-delete": true, "addr-insert": true}
+	corrupting = map[string]bool{"bitflip": true, "truncate": true, "extend": true, "boundary-shift": true, "addr-subst": true, "addr-delete": true, "addr-insert": true, "addr-decoded": true}
 )
 
 // resolve decodes an address with the repository's helper, catching panics.
